@@ -26,6 +26,8 @@ for d in sorted(glob.glob('seeded/*/meta.json')):
     m = json.load(open(d))
     r = res.get(m['id'], ('not run', ''))
     sig = r[1].split(';')[0][:70]
+    if not sig.startswith('C'):
+        sig = ''
     rows.append('| %s | %s | %s | %s |' % (m['id'], m['needs_to_manifest'].replace('|', '\\|'), r[0].lower(), ('`%s`' % sig.replace('|', '\\|')) if sig else ''))
 caught = sum(1 for r in res.values() if r[0] == 'CAUGHT')
 extra = open('seeded/NOTES.md').read() if os.path.exists('seeded/NOTES.md') else ''
